@@ -185,6 +185,7 @@ class no_cache(object):
 
         def clear(keepstats=False):
             """Clear the cache and statistics"""
+            cache.clear() # not empty after a load()
             if not keepstats: stats[:] = [0, 0, 0]
 
         def info():
